@@ -128,7 +128,18 @@ func (g *Gen) targetedHostile() []string {
 	case 19:
 		return []string{"RESTORE", "r" + strconv.Itoa(g.r.IntN(3)), g.pick("0", "0", "0", "-1", big), g.restorePayload(), g.pick("REPLACE", "REPLACE", "ABSTTL")}[:4+g.r.IntN(2)]
 	case 20:
-		return []string{"SCAN", g.pick("0", big, "-1", "x"), "COUNT", g.pick("0", "-1", big, "10"), "MATCH", g.pick("*", "[", "\\")}
+		// patterns that end in the middle of a construct (class, range, escape)
+		// behind a prefix that some name matches
+		pat := g.pick("*", "[", "\\", "s[a-", "n[a-", "h[", "l[^", "e[a", "[a-", "s\\", "s[\\", "*[", "?[a-", "s[a-z", "s[]", "s[^]")
+		switch g.r.IntN(4) {
+		case 0:
+			return []string{"KEYS", pat}
+		case 1:
+			return []string{"COMMAND", "LIST", "FILTERBY", "PATTERN", g.pick("g[a-", "s[", "h[^", "*[a-", pat)}
+		case 2:
+			return []string{g.pick("HSCAN", "SSCAN"), g.pick("hs", "ss"), "0", "MATCH", g.pick("f[a-", "m[", "g[^", "m[0-", pat)}
+		}
+		return []string{"SCAN", g.pick("0", big, "-1", "x"), "COUNT", g.pick("0", "-1", big, "10"), "MATCH", pat}
 	case 21:
 		return []string{g.pick("HSCAN", "SSCAN"), k, g.pick("0", big, "-1"), "COUNT", g.pick("0", big, "1")}
 	case 22:
